@@ -1,1 +1,3 @@
 import Proofs.Basic
+import Proofs.InvCorrect
+import Proofs.HullMain
